@@ -51,7 +51,14 @@ Definition c10_model_obs (c : term) : term :=
                  let '(st', r) := evs st (list_to_string [lit "info"; lit "default"; lit "p"; n; lit "dv"]) in
                  (st', l ++ [TList [obs_res r; obs_var st' (lit "dv")]]))
               (declared_names kinds) (st4, []) in
-  TList [obs_res rdef; obs_res rcall; calls; level; obs_res ia; obs_res ib; TList idefs].
+  (* a wrong-arity call, then the procedure is renamed and called again: the message names the
+     command as it is called now *)
+  let w8 := map (fun c => [c]) [119; 50; 51; 52; 53; 54; 55; 56]%N in
+  let '(st6, _) := evs st5 (list_to_string (lit "p" :: w8)) in
+  let '(st7, _) := evs st6 (lit "rename p q9") in
+  let '(st8, r8) := evs st7 (list_to_string (lit "q9" :: w8)) in
+  let '(st9, r0) := evs st8 (lit "q9") in
+  TList [obs_res rdef; obs_res rcall; calls; level; obs_res ia; obs_res ib; TList idefs; TList [obs_res r8; obs_res r0]].
 
 (* ---- the oracle ---- *)
 Definition is_bad (k : term) : bool := kind_is k "empty" || kind_is k "blank" || kind_is k "long".
@@ -108,8 +115,22 @@ Definition c10_spec_ok (c obs : term) : bool :=
   let kinds := term_list (term_nth c 0) in
   let args := term_strs (term_nth c 1) in
   match term_list obs with
-  | [rdef; rcall; TList calls; TInt level; ia; ib; TList idefs] =>
+  | [rdef; rcall; TList calls; TInt level; ia; ib; TList idefs; TList [r8; r0]] =>
       Z.eqb level 0 &&
+      (* after `rename p q9` an arity error names q9 *)
+      (match find is_bad kinds with
+       | Some _ => true
+       | None =>
+           let w8 := map (fun c => [c]) [119; 50; 51; 52; 53; 54; 55; 56]%N in
+           (match bind_spec kinds w8 with
+            | Some _ => true
+            | None => err_with r8 (lit "wrong # args: should be ""q9" ++ signature kinds ++ lit """")
+            end)
+           && (match bind_spec kinds [] with
+               | Some _ => true
+               | None => err_with r0 (lit "wrong # args: should be ""q9" ++ signature kinds ++ lit """")
+               end)
+       end) &&
       match find is_bad kinds with
       | Some k =>
           (* rejected at definition; nothing is defined *)
